@@ -39,6 +39,10 @@ func init() {
 				Label: fmt.Sprintf("[first=%d second=%d]", first, second), Params: map[string]int{"FIRST": first, "SECOND": second, "HOLE": 1, "OPTS": second % 4}, ParamsT: map[string]int{"HOLE": 2}, Reach: []string{"tpl/done"}})
 		}
 	}
+	for q := 0; q < 2; q++ {
+		p.Harnesses = append(p.Harnesses, HSpec{Prop: "C12", Pkg: L, Dir: "c12", Func: "VH_C12_IndentCooked", Cfg: cfg, Hang: true,
+			Label: fmt.Sprintf("[quote=%d]", q), Params: map[string]int{"QUOTE": q, "HOLE": 3, "OPTS": q * 3}, ParamsT: map[string]int{"HOLE": 4}, Reach: []string{"cooked/done"}})
+	}
 	for _, n := range []int{1, 2, 5, 8, 10} {
 		tier := ""
 		if n == 10 {
